@@ -355,7 +355,7 @@ def add_connection(u):
                C('C02.batch.take_batch.registers_exactly_the_tracked_seqs', '''forall|k: i32| #[trigger] self.packet_log@.contains_key(k) <==>
                     (mid.packet_log@.contains_key(k) || exists|i: int| 0 <= i < batch_nx && (#[trigger] batch@[i]).1 is Some && batch@[i].1.unwrap() as i32 == k)'''),
            ], dec='batch.len() - batch_nx')},
-           splices=[('if batch.is_empty() {', 'let ghost mid = *self;', 'before'),
+           splices=[('let batch = self.batch_sender.drain(now);', 'let ghost mid = *self;', 'after'),
                     ('self.last_sent = Some(now);', '''proof {
             let n = old(self).batch_sender.queue.len() as int;
             assert forall|k: i32| #[trigger] self.packet_log@.contains_key(k) <==>
